@@ -19,9 +19,32 @@ chk("C14", "exploration",
     "Trusts the reference decoder; DEL in HTML mode and TAB/LF/CR for code pages are don't-cares; iconv-backed encodings outside the validator table are not enumerated.",
     "runtime oracle comparison (reference decoder) over exhaustive/generated inputs, ASan+UBSan on a sample", "DESIGN.md section 4 / C14", "utf_mon")
 
+chk("C15", "exploration",
+    "HTML escaping on every output path (string, streambuf, ostream, filters::escape, nine form widgets), urlencode/urldecode and base64url are run on all strings of length 0..2 "
+    "(all 2^24 three-byte blocks for base64), all lengths 0..1024 with exact-size heap buffers under ASan, random strings to 64 KiB, malformed decoder input and sinks failing at every cut; "
+    "oracles: independent un-escape/percent/base64 references plus python html/urllib/base64. Held on everything explored.",
+    "Failure reporting of the streaming variants is outside the statement and only recorded; a '%' not followed by two hex digits has no specified decoding (memory safety only).",
+    "runtime oracle comparison (inverse functions, alphabet checks) + ASan/UBSan with exact-size buffers", "DESIGN.md section 4 / C15", "codec_mon")
+
+chk("C16", "exploration",
+    "Every message length 0..4300 for md5/sha1/sha224/sha256/sha384/sha512, fresh and reused objects, random append chunkings, HMAC keys 0..3 block sizes, AES-CBC 128/192/256 (explicit and nonce IV, "
+    "one or several calls, second object decrypting) compared with libgcrypt, an implementation independent of the OpenSSL/bundled code under test, plus embedded RFC/FIPS/SP800-38A vectors; thorough adds valgrind memcheck.",
+    "Trusts libgcrypt (cross-checked against the embedded standard vectors in the same run).",
+    "differential runtime oracle (libgcrypt, standard vectors) under ASan+UBSan, memcheck in thorough", "DESIGN.md section 4 / C16", "crypto_mon")
+
+chk("C19", "exploration",
+    "35 nested types with generated values round-trip through archive (>>, &, serialization_traits); malformed archives (every truncation, every length field x 28 boundary values, short tails, bit flips, "
+    "random bytes, foreign archives; libFuzzer in thorough) must throw or agree with a strict independently written shadow reader, under ASan+UBSan (memcheck in thorough). "
+    "Found and fixed: next_chunk_size accepted chunks ending 1..3 bytes past the archive.",
+    "Shadow reader defines the format; session/cache convenience calls are covered by the C05/C06/C07 monitors' data paths, not here.",
+    "runtime monitors: round-trip oracle + strict shadow reader + ASan/UBSan, libFuzzer", "DESIGN.md section 4 / C19", "ser_mon")
+
 ENGINES = [
     dict(name="check", path="check", kind_free_text="python3 driver: builds flavors from /repo's working tree, runs monitors in parallel, known-findings matching, evidence"),
     dict(name="utf_mon", path="harness/utf_mon.cpp", serves_properties=["C14"], kind_free_text="in-process monitor, reference decoder oracle"),
+    dict(name="codec_mon", path="harness/codec_mon.cpp", serves_properties=["C15"], kind_free_text="in-process monitor, inverse-function oracles"),
+    dict(name="crypto_mon", path="harness/crypto_mon.cpp", serves_properties=["C16"], kind_free_text="in-process differential monitor against libgcrypt"),
+    dict(name="ser_mon", path="harness/ser_mon.cpp", serves_properties=["C19"], kind_free_text="in-process monitor, shadow reader; also libFuzzer target ser_fuzz"),
 ]
 
 PENDING_REASON = "check not built yet in this round (design in DESIGN.md section 4); nothing is claimed for it"
